@@ -144,12 +144,12 @@ def build(model, data):
             continue
         env[k] = b.conv(v)
     env['g'] = G(**{k[2:]: v for k, v in model.items() if k.startswith('g.')})
-    fn = resolve(data['function'])
+    fn = resolve(data['function'].split('@')[0])
     if fn is None:
         raise SystemExit(2)
     sig = inspect.signature(fn)
     kwargs = {p: env[p] for p in sig.parameters if p in env}
-    if data['function'].startswith('pool.LaxBoundedSemaphore') and 'self' in env:
+    if data['function'].split('@')[0].startswith('pool.LaxBoundedSemaphore') and 'self' in env:
         import threading
         s = env['self']
         if not hasattr(s, '_cond') or isinstance(s._cond, Stub):
